@@ -13,4 +13,6 @@ else:
     for d in sorted(glob.glob("/verif/seeded/*/meta.json")):
         m = json.load(open(d))
         det = ", ".join(m.get("detected_by") or []) or "**none**"
+        if not m.get("note") and m["id"].startswith("revert-"):
+            m["note"] = m.get("origin", "")
         print(f"| {m['id']} | {m['breaks_property']} | {det} | {', '.join(m.get('not_detected_by') or [])} | {m.get('note','')} |")
